@@ -1126,7 +1126,10 @@ Verdict judge_c19(const Plan &plan, const sim::Shm *shm, const ChildExit &, cons
             std::string cat = kCategories[c.op->b % kNumCategories];
             std::string want = cat == "default" ? c.text : cat + ": " + c.text;
             int prio = c.op->a == 0 ? 7 : c.op->a == 4 ? 6 : c.op->a == 1 ? 4 : c.op->a == 2 ? 3 : 0;
-            if (s.text != want || s.prio != prio)
+            // the keys do not lay down the text syslog gets (the sink sends "<category>: <message>"; the
+            // formatted text would be as legitimate): the message must be in it, at the right severity
+            (void)want;
+            if (s.text.find(c.text) == std::string::npos || s.prio != prio)
                 fail19(v, "wrong-format",
                        "syslog: message " + mname(c) + " sent as priority " + std::to_string(s.prio) + " '" + clip(s.text, 80)
                                + "', expected priority " + std::to_string(prio) + " '" + clip(want, 80) + "'",
